@@ -82,7 +82,17 @@ pub fn plan_for(seed: u64, run: u64, files: &[(String, Vec<u8>)]) -> C07Plan {
             extreme_values: run % 8 == 7,
             ..ModelKnobs::default()
         };
-        ModelSrc::Gen(gen_model(&mut rng, &k))
+        let mut m = gen_model(&mut rng, &k);
+        if run % 40 == 39 {
+            // a serialisation whose total or body length sits exactly on (or one byte off) a
+            // power-of-two block boundary
+            let j = rng.range(9, 17);
+            let kmul = if j >= 15 { 1 } else { rng.range(1, 3) };
+            let base = kmul << j;
+            let target = (base + if rng.chance(1, 2) { MODEL_MAGIC.len() } else { 0 } + rng.range(0, 2)).saturating_sub(1);
+            crate::mmodel::pad_to_size(&mut m, target);
+        }
+        ModelSrc::Gen(m)
     };
     let write_scheds = (0..3).map(|_| Sched::benign(&mut rng)).collect();
     let read_scheds = (0..4)
